@@ -5,32 +5,54 @@ CONFIG = dict(
              'Pipeline.Initialize (dry run), every registered item deployed alone, random synthetic roots requiring registered keys / item names / '
              'unknown keys with random features; (ii) synthetic PipelineItem sets resolved by Initialize (dry run): all 2- and 3-item sets over 2 '
              'entities, layered acyclic sets, a second / third provider added, arbitrary relations (cycles, unsatisfied requirements), same-named '
-             'items, more than 12 items, malformed sets (a key listed twice, names colliding with generated node names). Each case is run 4 times '
-             '(Go randomises map iteration). Non-trivial = at least 2 items and at least one requirement; distinct = distinct input '
-             '(item list, or feature list + deployment list).',
+             'items, more than 12 items, malformed sets (a key listed twice, names colliding with generated node names); '
+             '(iii) round 2, kind cascade: structured cascades of k = 1..8 doubly provided entities in the TreeDiff/RenameAnalysis shape (raw provider of stage i '
+             'consumes the entity of stage i-1, the refiner consumes and re-provides its own) with an independent side chain of 0..8 items feeding the refiner of the last '
+             'or of an inner stage, variants: refiner reading through a cache item, a consumer behind every stage, a requirement chain in front, ascending / descending / '
+             'scrambled numbering, item list in generation / reversed / shuffled order (4..41 items; quick: whole (k, side) grid in the base shape + the band |side - k| <= 1 in every '
+             'variant, thorough: everything); kind samenamemany: 2..14 items of ONE name (N_10 sorts before N_2); kind scale: 100, 255, 256, 257, 300 (thorough: 1000, 2000) items as '
+             'one chain (ascending / descending / shuffled names, all items same-named), layers with fan-in 2, a cascade in which every entity is doubly provided, a ring, a chain with a '
+             'hole - above 64 items judged by the property oracles only; (iv) round 2, kinds seqpair / seqexh / seqrandom: sequences of API calls SetFeature / AddItem / DeployItem / RemoveItem on one '
+             'pipeline (two items of one name entering by AddItem / DeployItem / as a customised copy in every combination, then none / the older / the newer / both removed, the same instance '
+             'added twice and removed once, redeployment, then an analysis deployed whose requirements reach that name, the uast feature off / on first / on just before the last deployment; every '
+             'sequence of up to 3 (thorough 4) calls over a 9-call alphabet; random sequences of 2..12 calls over the whole registry with synthetic roots): the content of the pipeline (instance '
+             'ids + names) is compared with the model after EVERY call and the deploy-closure oracle is applied to every DeployItem, then Initialize (dry run). '
+             'Each case is run 4 times (Go randomises map iteration); the 4 runs also vary the other options Initialize reads: none / DAG dump to a file / DumpPlan + PrintActions + hibernation distance / all. '
+             'Non-trivial = at least 2 items and at least one requirement; distinct = distinct input (item list, or feature list + deployment list, or call sequence).',
         exhaustive_note='all 512 subsets of the registered leaf analyses x {uast off, uast on} (thorough: in two deployment orders), every '
                         'registered item alone x {off, on}; all 256 ordered pairs and all 816 multisets of 3 items whose provides/requires '
-                        'are subsets of {a,b} (thorough: also 2 items over 3 entities)',
+                        'are subsets of {a,b} (thorough: also 2 items over 3 entities); every sequence of at most 3 (thorough 4) API calls over the alphabet '
+                        '{AddItem TreeDiff, DeployItem TreeDiff, AddItem IdentityDetector, DeployItem Couples, DeployItem FileDiffRefiner, RemoveItem oldest / newest TreeDiff, '
+                        'RemoveItem newest IdentityDetector, SetFeature uast}; the whole grid stages 1..8 x side chain 0..8 of the cascade family',
         assumptions=['item names and entity keys enter the model as integer ranks of the strings under byte-wise order (what resolve uses of '
                      'them: equality and Go string order); the replay driver computes the ranks, the bracketed key names "[k]" and the '
                      'disambiguated names "n_i"',
                      'sort.Sort of the items is the stable insertion sort (Go: at most 12 elements) or sorts pairwise distinct names; '
                      'item sets with more than 12 items AND equal names are outside the fine comparison (counted)',
                      'FindParents / BreadthSort / FindCycle iterate Go maps: the model takes the orders as choice arguments, the theorems '
-                     'quantify over them; the driver accepts an implementation outcome if some of a family of 49 (on a miss up to 60) orders reproduces it',
+                     'quantify over them; the driver accepts an implementation outcome if some of a family of 49 (on a miss up to 60) orders reproduces it (walked lazily)',
+                     'AddItem appends the instance, RemoveItem deletes the first occurrence of the instance and nothing else: three lines of Go each, mirrored in the replay driver (not in Coq); '
+                     'SetFeature / DeployItem are the extracted set_feature / deploy',
+                     'item sets with more than 64 items (kind scale) are not run through the model: judged by perm_b / chain_order_ok / unsatisfiedb on the implementation output',
                      'registry: one registered item per name (checked per run by the extracted reg_okb on the registry table read from the implementation)'],
         trusted_base=['hand-written Gallina models coq/theories/Pipeline/Resolve.v (Pipeline.resolve) and Deploy.v (Pipeline.DeployItem, '
                       'Registry.Summon) on top of coq/theories/Toposort/Model.v, tied to the code by the replay of every harness case',
-                      'C15 theorems about Toposort/Model.v (Refine.v, Reach.v, Main.v) used by C10_unambiguous / C10_errors'],
+                      'C15 theorems about Toposort/Model.v (Refine.v, Reach.v, Main.v) used by C10_unambiguous / C10_errors',
+                      'the greedy search of the replay driver for a strict order (untrusted: its result counts only when the extracted chain_order_ok accepts it)'],
         level_text='C10_order_checker_sound (validator order_ok: accepted order => permutation of the items, every requirement provided strictly '
                    'before, every provider not before transitively requires an output of the consumer), C10_unambiguous and C10_errors (at most one '
                    'provider per entity, all map orders, all name formattings: outcome decided completely - Unsatisfied iff a requirement has no '
                    'provider, SortFailure iff a cyclic requirement, otherwise an order with every item strictly after all its providers, a permutation), '
                    'C10_deploy_closure + C10_deploy_total (DeployItem terminates and adds exactly the least set closed under enabled providers/namesakes of requirements). '
-                   'The chained (two-provider) case is decided per run by the proved-sound validator: partial.',
+                   'C10_strict_order_checker_sound (strict validator chain_order_ok: accepted order => permutation, every requirement provided strictly before and by no item after, implies order_ok). '
+                   'The chained (two-provider) case is decided per run by the proved-sound validators: a success must pass order_ok, and chain_order_ok whenever a strict order exists; a '
+                   '"topological sort failure" is a failure whenever a strict order exists (the requirements are then not cyclic in any reading): partial.',
         level_note='Partial: no general theorem for the chaining block; C10_chained_norequire_{order,lost_item,panic}_refuted and C10_chained_shared_panic_refuted prove that the full statement is '
                    'false of the current code in two input regions decided by the extracted region_of (tags [chained:no-provider-requires-entity], '
-                   '[chained:item-provides-two-ambiguous-entities]: known findings C10-K1/K2); every other region, all leaf subsets and all one-provider sets are clean. Modelled, not verified: the Go code (tie = replay); '
+                   '[chained:item-provides-two-ambiguous-entities]: known findings C10-K1/K2), C10_chained_not_farther_refuted in a third one decided by the extracted shallow_secondb inside the remaining chained regions '
+                   '(tag [chained:second-provider-not-farther-from-roots]: the BreadthSort rank picks the wrong end of the chain, "topological sort failure" for an acyclic set, random on ties: known finding C10-K3); '
+                   'every other region, all leaf subsets, all API call sequences and all one-provider sets are clean. Not judged (counted as resolve_err_sort_chained_suffix_order_exists): a chained "topological sort failure" for a set '
+                   'that has no strict order but an order with the BlobCache exception (a consumer may precede a later provider that depends on it). Modelled, not verified: the Go code (tie = replay); '
                    'fuel of BreadthSort/Toposort in the chained case is not proved sufficient (an out-of-fuel model outcome is reported as a mismatch; the deploy fuel is: C10_deploy_total).',
         technique='Coq proof over an executable model + extracted validator on implementation outputs + exhaustive replay of the finite leaf x feature scope',
         search_seconds=120,
